@@ -611,7 +611,11 @@ impl CertificateResolver {
             .certificates
             .iter()
             .map(|(fingerprint, cert)| {
-                (fingerprint.to_owned(), cert.names.to_owned(), cert.expiration)
+                (
+                    fingerprint.to_owned(),
+                    cert.names.to_owned(),
+                    cert.expiration,
+                )
             })
             .collect();
         store.sort_by(|a, b| a.0.cmp(&b.0));
